@@ -45,4 +45,37 @@ theorem rsLoopF_eq (sub rep : Str) : ∀ (f : Nat) (strit : Cur) (st : Str × Na
     | none => rfl
     | some step => exact ih _ _
 
+
+/-! ## the 32-bit counter of the iterator-range `join` -/
+
+/-- once `tot - 1 ≥ 2³²` the test `i < tot - 1` is true for every value the wrapping counter
+can take: the loop only stops by reading `*it` behind the last element -/
+theorem joinFmtLoopP_overrun (vec : List Str) (delim : Str) (totm1 : Nat) (h : 2 ^ 32 ≤ totm1) :
+    ∀ (f i it : Nat) (ret : Str), i < 2 ^ 32 → it ≤ vec.length → vec.length - it < f →
+      joinFmtLoopP vec delim totm1 f i it ret = .oob vec.length := by
+  intro f
+  induction f with
+  | zero => intro i it ret _ _ hf; omega
+  | succ f ih =>
+    intro i it ret hi hit hf
+    unfold joinFmtLoopP
+    rw [if_pos (by omega)]
+    by_cases he : it = vec.length
+    · subst he
+      simp [rdV]
+    · have hlt : it < vec.length := by omega
+      rw [rdV_lt vec it hlt]
+      simp only [PR.ok_bind]
+      exact ih _ _ _ (Nat.mod_lt _ (by decide)) (by omega) (by omega)
+
+theorem joinFmtP_overrun' (vec : List Str) (delim pre post : Str) (h : 2 ^ 32 < vec.length) :
+    joinFmtP vec delim pre post = .oob vec.length := by
+  unfold joinFmtP
+  have h0 : vec.length ≠ 0 := by omega
+  simp only []
+  rw [if_neg h0]
+  have hsd : sizeDec vec.length = vec.length - 1 := by simp [sizeDec, h0]
+  rw [hsd, joinFmtLoopP_overrun vec delim (vec.length - 1) (by omega) (vec.length + 1) 0 0 pre (by decide) (by omega) (by omega)]
+  rfl
+
 end Igris.C19
